@@ -13,6 +13,7 @@ BATTERIES = {
     "C17": [("c17_rect.py", "{n} {seed}", r"mismatches (\d+)", (250, 2500))],
     "C10": [("c10_truncate.py", "{n} {seed}", r"checked \d+ bad (\d+)", (60, 400))],
     "C04": [("c04_round_tucker.py", "{seed} {n}", r"mismatches (\d+)", (150, 1200))],
+    "C15": [("c15_logic.py", "{n} {seed}", r"mismatches: (\d+)", (60, 500))],
     "C09": [("c09_sobol.py", "{seed} {n}", r"mismatches (\d+)", (80, 600))],
 }
 
